@@ -117,11 +117,11 @@ def _post_fit(call):
     slack = 1e-6 * abs(obj) + 1e-18 + 1e-9 * float(np.sum(y * y)) * 1e-6
 
     def on_bound(j):
-        # trust-region-reflective keeps its iterates strictly inside: a parameter within 1e-5 of a bound counts as ON it
+        # trust-region-reflective keeps its iterates strictly inside: a parameter within 1e-4 of a bound counts as ON it (4.3e-5 seen)
         if bounds is None:
             return False
         lo, hi = bounds[j]
-        return (lo is not None and abs(p[j] - lo) <= 1e-5 * max(1.0, abs(lo))) or (hi is not None and abs(p[j] - hi) <= 1e-5 * max(1.0, abs(hi)))
+        return (lo is not None and abs(p[j] - lo) <= 1e-4 * max(1.0, abs(lo))) or (hi is not None and abs(p[j] - hi) <= 1e-4 * max(1.0, abs(hi)))
 
     def improving(mode_, rel_slack=1e-6):
         base = _objective(dep, x, y, w, p, mode_)
@@ -134,7 +134,7 @@ def _post_fit(call):
                     q = _project(q, bounds)
                     if q == p:
                         continue
-                    if on_bound(j) and abs(q[j] - p[j]) <= 1e-5 * max(1.0, abs(p[j])):
+                    if on_bound(j) and abs(q[j] - p[j]) <= 1e-4 * max(1.0, abs(p[j])):
                         continue  # the step only moves the parameter onto the bound it already sits at
                     if constraints is not None and any(v < 0 for v in _constraint_values(constraints, q)):
                         continue
